@@ -39,6 +39,9 @@ func (u *Universe) mkCase(mode string, a, b, s, i1, i2 int) *Case {
 	if mode == "validate" {
 		ia, ib = va.Validate, vb.Validate
 	}
+	if len(ia) == 0 || len(ib) == 0 {
+		return nil // the variant is not explored in this mode (Preprocess in Validate)
+	}
 	return &Case{
 		ID:     fmt.Sprintf("u-%s-%d-%d-%d-%d-%d", mode[:1], a, b, s, i1, i2),
 		Mode:   mode,
@@ -56,7 +59,9 @@ func famUniverse(tw *traceWriter, r *rand.Rand, n int) {
 		for k := 0; k < n; k++ {
 			mode := pick(r, modes)
 			a, b := r.Intn(len(u.Variants)), r.Intn(len(u.Variants))
-			tw.emitCase(u.mkCase(mode, a, b, r.Intn(len(u.StructTests)), r.Intn(64), r.Intn(64)), "", true)
+			if c := u.mkCase(mode, a, b, r.Intn(len(u.StructTests)), r.Intn(64), r.Intn(64)); c != nil {
+				tw.emitCase(c, "", true)
+			}
 		}
 		return
 	}
@@ -70,7 +75,9 @@ func famUniverse(tw *traceWriter, r *rand.Rand, n int) {
 					}
 					for i1 := 0; i1 < na; i1++ {
 						for i2 := 0; i2 < nb; i2++ {
-							tw.emitCase(u.mkCase(mode, a, b, s, i1, i2), "", true)
+							if c := u.mkCase(mode, a, b, s, i1, i2); c != nil {
+								tw.emitCase(c, "", true)
+							}
 						}
 					}
 				}
